@@ -47,7 +47,14 @@ func c10() {
 			}
 		}
 		flags := uint32([]int{1, 3, 1, 0, 2, 1, 3}[i%7])
-		cc := &vlib.ChildCase{Policy: spec, Flags: flags, NNP: true, TSync: tc}
+		// the flag is requested through the package's named constants; the kernel values are the oracle's
+		cc := &vlib.ChildCase{Policy: spec, NNP: true, TSync: tc}
+		if flags&1 != 0 {
+			cc.FlagNames = append(cc.FlagNames, "tsync")
+		}
+		if flags&2 != 0 {
+			cc.FlagNames = append(cc.FlagNames, "log")
+		}
 		variant := ""
 		if i%raceEvery == 1 {
 			variant = "race"
